@@ -99,6 +99,12 @@ Definition strip_reg (calls : list hcall) : list hcall :=
 Definition tunnel_calls (mid : nat -> N) (p : prog) : list hcall :=
   let '(_, _, calls) := ReceiverMisc.crun rs_default (mk_w 0 []) (sender_run mid p) in calls.
 
+(** The same run with the host's filter named: [TracingEventReceiver] never calls
+    [Subscriber::enabled] / [register_callsite]'s interest (F7), so [try_receive] has no parameter
+    for the host's answers and the calls are those of [tunnel_calls] whatever [enabled] is. *)
+Definition tunnel_calls_under (enabled : nat -> bool) (mid : nat -> N) (p : prog) : list hcall :=
+  tunnel_calls mid p.
+
 (** the receiver's answers ([try_receive] results), one per event *)
 Fixpoint orun (st : rstate) (w : world) (evs : list event) : list outcome :=
   match evs with
